@@ -105,6 +105,9 @@ pub fn gen(rng: &mut Rng, _tier: Tier) -> Scn {
         if rng.chance(0.5) {
             o.etag = Some(format!("{}{}", rng.pick(&HOSTILE_STRINGS), i));
         }
+        if rng.chance(0.15) {
+            o.optel = Some(("traceparent".to_string(), format!("00-{:032x}-{:016x}-01 {}", rng.next_u64() as u128 * 7919, rng.next_u64(), rng.pick(&HOSTILE_STRINGS))));
+        }
         if rng.chance(0.1) {
             o.ctype = "long/".to_string() + &"x&<>\"'".repeat(170);
         }
@@ -186,6 +189,10 @@ fn expect_file(o: &ObjectSpec, toi: u128, sender: &SenderSpec, publish_us: u64) 
             None
         },
         etag: o.etag.clone(),
+        optel: o.optel.as_ref().map(|(k, v)| {
+            use base64::Engine;
+            base64::engine::general_purpose::STANDARD.encode(serde_json::to_string(&std::collections::BTreeMap::from([(k.clone(), v.clone())])).unwrap_or_default())
+        }),
         groups: o.groups.clone().unwrap_or_default(),
         cache: o.cache.as_ref().map(|c| match c {
             CacheSpec::NoCache => "no-cache".to_string(),
@@ -230,6 +237,9 @@ fn compare_file(ctx: &Ctx, inst: u32, got: &FdtFile, want: &FdtFile) {
     if got.etag != want.etag {
         let ws = want.etag.as_ref().map(|s| s.contains(['\t', '\n', '\r'])).unwrap_or(false);
         bad(if ws { "etag-literal-whitespace" } else { "etag" }, format!("{:?}", got.etag), format!("{:?}", want.etag));
+    }
+    if got.optel != want.optel {
+        bad("optel-propagator", format!("{:?}", got.optel), format!("{:?}", want.optel));
     }
     if got.groups != want.groups {
         bad("groups", format!("{:?}", got.groups), format!("{:?}", want.groups));
